@@ -96,18 +96,34 @@ func (c *mainClient) QueryWatermarkOffsets(topic string, partition int32, timeou
 	return c.wms[i].Low, c.wms[i].High, nil
 }
 
-// waitCtx counts the limiter's consultations: rate.Limiter.WaitN calls ctx.Deadline() exactly once per call.
+// waitCtx counts the limiter's consultations: rate.Limiter.WaitN polls ctx.Done() and then calls ctx.Deadline() exactly
+// once per call.  When the limiter is NOT handed this context itself but one derived from it (context.WithTimeout /
+// WithDeadline consult parent.Deadline() first and parent.Done() afterwards), Deadline() is reached without a preceding
+// Done(): such a wait is recorded as a negative entry (-1 - events emitted so far) - it can be abandoned by a deadline.
 type waitCtx struct {
 	context.Context
-	ch    chan firebolt.Event
-	waits *[]int64
-	mu    *sync.Mutex
-	base  *int // events put into the channel by the harness itself (RecCrash pre-fills it)
+	ch       chan firebolt.Event
+	waits    *[]int64
+	mu       *sync.Mutex
+	base     *int // events put into the channel by the harness itself (RecCrash pre-fills it)
+	doneSeen *bool
+}
+
+func (w *waitCtx) Done() <-chan struct{} {
+	w.mu.Lock()
+	*w.doneSeen = true
+	w.mu.Unlock()
+	return w.Context.Done()
 }
 
 func (w *waitCtx) Deadline() (time.Time, bool) {
 	w.mu.Lock()
-	*w.waits = append(*w.waits, int64(len(w.ch)-*w.base))
+	v := int64(len(w.ch) - *w.base)
+	if !*w.doneSeen {
+		v = -1 - v
+	}
+	*w.doneSeen = false
+	*w.waits = append(*w.waits, v)
 	w.mu.Unlock()
 	return time.Time{}, false
 }
@@ -127,6 +143,7 @@ type world struct {
 	waits                 []int64
 	mu                    sync.Mutex
 	base                  int
+	doneSeen              bool
 	log                   []fbcontext.Message
 	in                    *instance
 }
@@ -135,7 +152,7 @@ func (w *world) newInstance() {
 	in := &instance{cl: newRecClient(), main: &mainClient{Consumer: fake.NewConsumer()}, ctx: &fake.Ctx{}}
 	in.rc = kafkaconsumer.NewRecoveryConsumerV(in.cl, topicName, w.out, int(w.maxrec), hugeRate, in.ctx)
 	in.rc.SetUpdateEveryV(w.every)
-	in.rc.SetWaitCtxV(&waitCtx{Context: context.Background(), ch: w.out, waits: &w.waits, mu: &w.mu, base: &w.base})
+	in.rc.SetWaitCtxV(&waitCtx{Context: context.Background(), ch: w.out, waits: &w.waits, mu: &w.mu, base: &w.base, doneSeen: &w.doneSeen})
 	in.k = kafkaconsumer.NewKafkaConsumerV(in.main, topicName, w.out, int(w.maxlag), in.rc, in.ctx)
 	w.in = in
 }
@@ -217,6 +234,7 @@ func Run(in sx.Tree) sx.Tree {
 	per := []sx.Tree{}
 	for _, op := range in.At(2).Kids {
 		w.waits = nil
+		w.doneSeen = false
 		w.in.cl.calls = nil
 		isErr := false
 		acksBefore := len(w.in.ctx.Acked)
@@ -379,6 +397,7 @@ func Run(in sx.Tree) sx.Tree {
 				w.out = make(chan firebolt.Event, w.outCap)
 				w.base = 0
 				w.waits = nil
+				w.doneSeen = false
 			}
 			fallthrough
 		case 12:
